@@ -412,7 +412,7 @@ func (w *world) alphabet0(thorough bool) []op {
 				continue
 			}
 			for v := 0; v < nvals; v++ {
-				if f.name == "XSession" && !thorough && (tn != "t0" || v%3 != 1) && v > 1 {
+				if f.name == "XSession" && !thorough && tn != "t0" && v > 1 {
 					continue
 				}
 				out = append(out, op{fmt.Sprintf("Set%s(%s,v%d)", f.name, tn, v), func(w *world) {
@@ -622,6 +622,12 @@ func (w *world) expected(f field, v int) string {
 	if err != nil {
 		r.Violation("lost-value:"+f.name, fmt.Sprintf("%s value %d cannot be read back even on a fresh single-token database: %v", f.name, v, err), nil)
 		s = "UNREADABLE"
+	}
+	if f.name == "XSession" && err == nil {
+		// independent expectation: the session handed to the store, serialised by the session itself
+		if want := string(kexVals[v].suite) + ":" + kexVals[v].repr; s != want {
+			r.Violation("wrong-value:XSession:not-the-session-stored", fmt.Sprintf("XSession value %d (%s): the session read back differs from the session stored: read %s, stored %s", v, kexVals[v].suite, short(s), short(want)), map[string]any{"value": v})
+		}
 	}
 	expCache.Store(key, s)
 	return s
